@@ -495,6 +495,8 @@ def enc_record(r):
     for f in ('arrival_date', 'waiting_time', 'service_start_date', 'service_time', 'service_end_date',
               'time_blocked', 'exit_date'):
         d[f] = tk(getattr(r, f))
+        if isinstance(d[f], tuple):
+            d[f] = 'nan'            # a string where a number belongs (e.g. service_time = 'resume' leaking into a record): not a number
     dst = r.destination
     d['destination'] = None if dst is False else ('nan' if isinstance(dst, float) and math.isnan(dst) else dst)
     for f in ('queue_size_at_arrival', 'queue_size_at_departure', 'server_id'):
